@@ -1040,14 +1040,18 @@ def _map_overlap_direct(func, args, depth, boundary, trim, allow_rechunk, kwargs
         if new_axis is not None:
             if isinstance(new_axis, Number):
                 new_axis = [new_axis]
-            ndim_out = max(a.ndim for a in overlapped)
-            new_axis = [d % ndim_out for d in new_axis]
+            # positions in the OUTPUT; only negative ones are wrapped (against
+            # the inputs' rank, as before)
+            ndim_in = max(a.ndim for a in overlapped)
+            new_axis = sorted(d if d >= 0 else d % ndim_in for d in new_axis)
 
             for axis in new_axis:
-                for existing_axis in list(trim_depth.keys()):
+                # shift the higher axes up by one, highest first so that no
+                # entry is overwritten before it has been moved
+                for existing_axis in sorted(trim_depth, reverse=True):
                     if existing_axis >= axis:
-                        trim_depth[existing_axis + 1] = trim_depth[existing_axis]
-                        trim_boundary[existing_axis + 1] = trim_boundary[existing_axis]
+                        trim_depth[existing_axis + 1] = trim_depth.pop(existing_axis)
+                        trim_boundary[existing_axis + 1] = trim_boundary.pop(existing_axis)
                 trim_depth[axis] = 0
                 trim_boundary[axis] = "none"
 
